@@ -1782,7 +1782,12 @@ int32 matrixSslProcessedData(ssl_t *ssl, unsigned char **ptbuf, uint32 *ptlen)
             if (!(USING_TLS_1_3(ssl)))
             {
                 ctlen += AEAD_TAG_LEN(ssl);
-                ctlen += AEAD_NONCE_LEN(ssl);
+                /* The explicit nonce of the read direction (the decoder
+                    tests SSL_FLAGS_NONCE_R; AEAD_NONCE_LEN is for writes) */
+                if (ssl->flags & SSL_FLAGS_NONCE_R)
+                {
+                    ctlen += TLS_EXPLICIT_NONCE_LEN;
+                }
             }
         }
         Memmove(ssl->inbuf, ssl->inbuf + ctlen, ssl->inlen);
